@@ -181,9 +181,18 @@ def load_known(pid):
     return [k for k in json.load(open(p))['findings'] if k['property'] == pid and k.get('status') == 'open']
 
 
+MATCHERS = {}   # name -> callable(case, reason), registered by property modules (known_matchers)
+
+
 def match_known(known, case, reason):
     for k in known:
-        if re.fullmatch(k['case_regex'], case.line) and (not k.get('reason_regex') or re.search(k['reason_regex'], reason)):
+        if k.get('reason_regex') and not re.search(k['reason_regex'], reason):
+            continue
+        if 'matcher' in k:
+            f = MATCHERS.get(k['matcher'])
+            if f and f(case, reason):
+                return k
+        elif re.fullmatch(k['case_regex'], case.line):
             return k
     return None
 
@@ -305,6 +314,7 @@ def run_check(prop, tier, replay=None):
     pid = prop.id
     notes = []
     known = load_known(pid)
+    MATCHERS.update(getattr(prop, 'known_matchers', {}))
 
     # 1. harness (also builds gotables used by the proof stage)
     hok, hlog = build_harness(race=getattr(prop, 'needs_race', False))
@@ -336,6 +346,8 @@ def run_check(prop, tier, replay=None):
         model = run_model(lines)
     else:
         model = [None] * len(lines)
+    if hasattr(prop, 'post_model'):
+        model = prop.post_model(lines, model)
 
     # 4. compare + oracle
     mism, fails, knowns = [], [], {}
